@@ -30,6 +30,17 @@ class Blob:
         raise AnalysisError(f"iteration over the opaque value {self._name}")
 
 
+class OpenSym(Sym):
+    """namespace stub (numpy-like): known members are given as attributes, any other member is a function that returns a named symbolic application,
+    so that an unexpected call shows up in the compared result instead of stopping the analysis"""
+    def __init__(self, name, make=None, **attrs):
+        super().__init__(name, **attrs)
+        self._make = make or (lambda text: Sym(text))
+
+    def symattr(self, attr):
+        return lambda *a, **k: self._make(f"{attr}(" + ", ".join([repr(x) for x in a] + [f"{n}={v!r}" for n, v in k.items()]) + ")")
+
+
 class SymDict:
     """mapping from symbolic nodes to values computed by a function"""
     def __init__(self, fn):
@@ -299,6 +310,8 @@ class SymInterp:
                     return getattr(v, e.attr)
                 if e.attr in type(v).__dict__ and not callable(type(v).__dict__[e.attr]):
                     return type(v).__dict__[e.attr]
+                if callable(getattr(type(v), "symattr", None)):
+                    return v.symattr(e.attr)
                 raise AnalysisError(f"symbolic object {v!r} has no attribute {e.attr}")
             if isinstance(v, (list, tuple, str, dict)) and e.attr in ("append", "extend", "copy", "remove", "index", "insert"):
                 return getattr(v, e.attr)
@@ -432,6 +445,8 @@ class SymInterp:
                 target = recv.__dict__[f.attr]
             if target is None and isinstance(recv, Sym) and f.attr in type(recv).__dict__ and callable(type(recv).__dict__[f.attr]):
                 target = getattr(recv, f.attr)
+            if target is None and isinstance(recv, Sym) and callable(getattr(type(recv), "symattr", None)):
+                target = recv.symattr(f.attr)
             if target is not None:
                 if callable(target):
                     return target(*args, **kwargs)
